@@ -70,6 +70,7 @@ def sample(make, k, snaps, runs, hrnd, interference=False):
     snapset = set(snaps)
     for _ in range(runs):
         st = make()
+        upd = st.update if _ % 2 else None             # every other execution calls a bound method taken BEFORE the first update
         first = make() if interference else None      # a second storage fed the very same dict objects (e.g. two explainers)
         at = hrnd.randrange(nmax) if interference and hrnd.random() < 0.5 else -1
         for i in range(nmax):
@@ -78,7 +79,10 @@ def sample(make, k, snaps, runs, hrnd, interference=False):
             obs = {"t": i}
             if first is not None:
                 first.update(obs)
-            st.update(obs)
+            if upd is not None:
+                upd(obs)
+            else:
+                st.update(obs)
             n = i + 1
             if n in snapset:
                 xs = list(st.get_data()[0])
@@ -129,7 +133,7 @@ def main(run):
             continue
         runs = rt if thorough else rq
         random.seed(run.shard_seed * 7919 + j)
-        ct = CellTests(plan(k, snaps), eps=EPS / (len(GRID) + 2))
+        ct = CellTests(plan(k, snaps), eps=EPS / (len(GRID) + 4))
         interference = j % 3 == 1
         if interference:
             runs = runs // 3
@@ -174,7 +178,7 @@ def main(run):
     # ---- thin slices of the size axis: EVERY reservoir size 1..24 with a coarse inclusion test (first, (k+1)-th, middle, last arrival)
     ks = [k for k in range(1, 25) if k % nsh == sh]
     runs = 1500 if not thorough else 20000
-    ct = CellTests(4 * len(ks) + 1, eps=EPS / (len(GRID) + 2))
+    ct = CellTests(4 * len(ks) + 1, eps=EPS / (len(GRID) + 4))
     random.seed(run.shard_seed * 31337 + 5)
     sweep_fails = []
     for k in ks:
@@ -194,7 +198,35 @@ def main(run):
             if r:
                 sweep_fails.append(r)
         run.nontriv(("size-sweep", k))
-    run.count("cell-tests", ct.done)
+    # ---- very long streams (n/k of 1e5 .. 1e6): late arrivals must still be admitted at rate k/n.  One harness-chosen random
+    # slot per execution: its arrival time falls into the first quarter of the stream with probability exactly 1/4.
+    long_cfg = [(1, 400000, 60), (2, 600000, 30), (3, 900000, 24)] if not thorough else [(1, 4000000, 30), (3, 3000000, 24), (10, 4000000, 16)]
+    lct = CellTests(2 * len(long_cfg), eps=EPS / (len(GRID) + 4))
+    for jj, (k, n, reps_) in enumerate(long_cfg):
+        if jj % nsh != sh % len(long_cfg) or sh >= len(long_cfg):
+            continue
+        early = late = 0
+        for r_ in range(reps_):
+            st = UniformReservoirStorage(size=k, store_targets=False)
+            upd = st.update
+            if r_ % 2:
+                for i in range(n):
+                    upd({"t": i})
+            else:
+                for i in range(n):
+                    st.update({"t": i})
+            xs = st.get_data()[0]
+            t = xs[hrnd.randrange(len(xs))]["t"]
+            early += t < n // 4
+            late += t >= n - n // 4
+        run.ok(reps_, kind="very-long-stream")
+        run.count("very-long-stream-updates", n * reps_)
+        for cnt_, what in ((early, "first"), (late, "last")):
+            r = lct.test(cnt_, reps_, 0.25, f"k={k} n={n}: a random stored item stems from the {what} quarter of the stream")
+            if r:
+                sweep_fails.append(r)
+        run.nontriv(("very-long", k, n))
+    run.count("cell-tests", ct.done + lct.done)
     for msg in sweep_fails[:3]:
-        run.violation("inclusion-law", msg + f" over {runs} runs", {"size_sweep": True, "runs": runs})
+        run.violation("inclusion-law", msg, {"size_sweep_or_long_stream": True, "runs": runs})
     run.notes["max_min_detectable_deviation"] = max(mdd, ct.max_mdd)
